@@ -42,6 +42,32 @@ class Ctx(object):
         self._cache[key] = (ps, it)
         return ps, it
 
+    def instances(self, fi):
+        """concrete self classes under which a method must be analysed (CHA): every package subclass
+        of its owner that does not override it; [None] for plain functions"""
+        if fi.owner is None:
+            return [None]
+        out = [c for c in self.prog.subclasses(fi.owner) if c.lookup(fi.name)[1] is fi]
+        return out or [fi.owner]
+
+    def callgraph(self):
+        """caller map from depth-0 runs of every function: callee key -> set of (caller fi, self class)"""
+        if getattr(self, "_cg", None) is not None:
+            return self._cg
+        callers = {}
+        for fi in sorted(self.prog.functions.values(), key=lambda f: f.key):
+            for ci in self.instances(fi):
+                try:
+                    ps, it = self.paths(fi, ci, depth=0)
+                except AnalysisError:
+                    continue
+                for p in ps:
+                    for e in p.events:
+                        if e.kind == "call" and e.d["callee"] is not None:
+                            callers.setdefault(e.d["callee"].key, set()).add((fi.key, ci.key if ci else None))
+        self._cg = callers
+        return callers
+
     # ---- discovery helpers shared by several properties
     def executor_classes(self):
         """package classes deriving from concurrent.futures.Executor (directly or through a pool)"""
